@@ -69,9 +69,31 @@ pub async fn exec(a: &Args) -> Args {
                     // every accepted stream is read by its own task: an accepted-but-idle stream
                     // must not keep this acceptor from accepting the next one
                     let tx2 = tx.clone();
-                    tokio::spawn(async move {
+                    let reader = tokio::spawn(async move {
                         let mut buf = vec![0u8; 65536];
                         let mut data = vec![];
+                        // a payload starting with NOREAD is accepted but left unread (C07): the first
+                        // six bytes are read, then the stream is held without reading
+                        let mut early = None;
+                        while data.len() < 6 && early.is_none() {
+                            match tokio::time::timeout(Duration::from_millis(1200), recv.read(&mut buf[..6 - data.len()])).await {
+                                Ok(Ok(Some(k))) => data.extend(&buf[..k]),
+                                Ok(Ok(None)) => early = Some(vec![0]),
+                                Ok(Err(wtransport::error::StreamReadError::Reset(code))) => early = Some(vec![1, code.into_inner()]),
+                                Ok(Err(_)) => early = Some(vec![3]),
+                                Err(_) => early = Some(vec![2]),
+                            }
+                        }
+                        if data == b"NOREAD" {
+                            let _ = tx2.send((kind, data, vec![2]));
+                            tokio::time::sleep(Duration::from_secs(600)).await;
+                            drop(recv);
+                            return;
+                        }
+                        if let Some(e) = early {
+                            let _ = tx2.send((kind, data, e));
+                            return;
+                        }
                         let end = loop {
                             match tokio::time::timeout(Duration::from_millis(1200), recv.read(&mut buf)).await {
                                 Ok(Ok(Some(k))) => data.extend(&buf[..k]),
@@ -83,11 +105,20 @@ pub async fn exec(a: &Args) -> Args {
                         };
                         let _ = tx2.send((kind, data, end));
                     });
+                    // cancel == 2: one-shot acceptors (each task accepts exactly one stream)
+                    if cancel == 2 {
+                        let _ = reader;
+                        return;
+                    }
                 }
             }));
         }
     }
     drop(tx);
+    if cancel == 2 {
+        // let every acceptor park in its accept call before the first stream exists
+        tokio::time::sleep(Duration::from_millis(200)).await;
+    }
     // the raw peer follows the script
     let mut sends: Vec<Option<quinn::SendStream>> = vec![];
     let mut recvs: Vec<Option<quinn::RecvStream>> = vec![];
@@ -101,16 +132,35 @@ pub async fn exec(a: &Args) -> Args {
             match raw.conn.open_bi().await { Ok((s, r)) => (s, Some(r)), Err(_) => { sends.push(None); recvs.push(None); continue; } }
         };
         let cut = cut.min(bytes.len());
+        // a write that cannot make progress (no flow-control credit) is given up after a while:
+        // the script goes on and the stream simply never carries its bytes
+        const T_WRITE: Duration = Duration::from_millis(2000);
         if cut > 0 {
-            let _ = s.write_all(&bytes[..cut]).await;
+            let _ = tokio::time::timeout(T_WRITE, s.write_all(&bytes[..cut])).await;
         }
         if pause > 0 {
             tokio::time::sleep(Duration::from_millis(pause)).await;
         }
         if end != 2 || pause == 0 {
             if cut < bytes.len() {
-                let _ = s.write_all(&bytes[cut..]).await;
+                let _ = tokio::time::timeout(T_WRITE, s.write_all(&bytes[cut..])).await;
             }
+        }
+        // spec[5]: that many further bytes follow (data the application leaves unread)
+        let fill = spec.get(5).copied().unwrap_or(0) as usize;
+        if fill > 0 {
+            let chunk = vec![0xABu8; 60_000];
+            let _ = tokio::time::timeout(Duration::from_millis(1500), async {
+                let mut left = fill;
+                while left > 0 {
+                    let k = left.min(chunk.len());
+                    if s.write_all(&chunk[..k]).await.is_err() {
+                        break;
+                    }
+                    left -= k;
+                }
+            })
+            .await;
         }
         match end {
             0 => { let _ = s.finish(); }
@@ -188,7 +238,8 @@ pub fn oracle(a: &Args, out: &Args) -> Option<(&'static str, String)> {
     // C01/C08 on the implementation alone: every delivered payload is one the peer wrote for the
     // live session after a valid preamble, each at most once
     let n = (a.len() - 1) / 2;
-    let mut written: Vec<(u64, Vec<u64>)> = vec![];
+    // (kind, payload the peer put after the preamble, peer finished the stream after writing it all)
+    let mut written: Vec<(u64, Vec<u64>, bool)> = vec![];
     fn varint(b: &[u64]) -> Option<(u64, usize)> {
         let first = *b.first()?;
         let len = 1usize << (first >> 6);
@@ -201,9 +252,15 @@ pub fn oracle(a: &Args, out: &Args) -> Option<(&'static str, String)> {
         }
         Some((v, len))
     }
+    let mut strict = 0usize;
     for i in 0..n {
-        let kind = a[1 + 2 * i][0];
-        let b = &a[2 + 2 * i];
+        let spec = &a[1 + 2 * i];
+        let kind = spec[0];
+        // a stream left open after a pause carries only the bytes before the cut
+        let held_back = spec[3] == 2 && spec[2] > 0;
+        let sent_len = if held_back { (spec[1] as usize).min(a[2 + 2 * i].len()) } else { a[2 + 2 * i].len() };
+        let b = &a[2 + 2 * i][..sent_len];
+        let finished = spec[3] == 0;
         let mut off = 0usize;
         let payload: Option<Vec<u64>> = (|| {
             if kind == 0 {
@@ -232,8 +289,18 @@ pub fn oracle(a: &Args, out: &Args) -> Option<(&'static str, String)> {
             }
         })();
         if let Some(p) = payload {
-            written.push((kind, p));
+            // strictly well-formed: the type / signal value is the very first thing on the stream
+            let first = varint(b).map(|x| x.0);
+            if first == Some(if kind == 0 { 0x54 } else { 0x41 }) {
+                strict += 1;
+            }
+            written.push((kind, p, finished));
         }
+    }
+    // nothing but well-formed live-session streams: the connection has no reason to end
+    let closed_early = out.len() >= 2 && out[out.len() - 2].first() != Some(&TAG_PENDING) && !out[out.len() - 2].is_empty();
+    if strict == n && n > 0 && closed_early {
+        return Some(("C01+C07+C08", format!("the connection was closed ({:?}) although every stream the peer opened was a well-formed stream of the live session", out[out.len() - 2])));
     }
     let cnt = out[0][1] as usize;
     let mut i = 1;
@@ -241,12 +308,26 @@ pub fn oracle(a: &Args, out: &Args) -> Option<(&'static str, String)> {
         let kind = out[i][0];
         let data = &out[i + 1];
         let full = out[i].len() >= 2 && out[i][1] == 0;
-        let pos = written.iter().position(|(k, d)| *k == kind && if full { d == data } else { d.len() >= data.len() && d[..data.len()] == data[..] });
+        let pos = written.iter().position(|(k, d, _)| *k == kind && if full { d == data } else { d.len() >= data.len() && d[..data.len()] == data[..] });
         match pos {
-            Some(p) => { written.remove(p); }
+            Some(p) => {
+                let (_, d, fin) = written.remove(p);
+                if fin && !full {
+                    return Some(("C01", format!("the peer wrote {} bytes and finished the stream; the application read {} bytes and then {:?} instead of end-of-stream", d.len(), data.len(), &out[i][1..])));
+                }
+            }
             None => return Some(("C01", format!("the application read {} bytes on a {} stream that no live-session stream carried (or a stream was delivered twice)", data.len(), if kind == 0 { "uni" } else { "bidi" }))),
         }
         i += 2;
+    }
+    // C07/C08/C01: while the connection stays up, every stream of the live session whose preamble
+    // arrived completely reaches the application (exactly once: see above), whatever other
+    // streams do and however the application paces its accepts
+    let closed = out.len() >= 2 && out[out.len() - 2].first() != Some(&TAG_PENDING) && !out[out.len() - 2].is_empty();
+    if !closed {
+        if let Some((k, d, _)) = written.first() {
+            return Some(("C08+C07+C01", format!("{} live-session stream(s) with a complete preamble never reached the application (first: {} stream, {} payload bytes)", written.len(), if *k == 0 { "uni" } else { "bidi" }, d.len())));
+        }
     }
     None
 }
@@ -284,6 +365,16 @@ pub fn generate(rng: &mut Rng, thorough: bool, which: &str) -> Vec<Case> {
                 }
             }
         }
+        // the preamble in two pieces with more than a second in between (C01: no watchdog or
+        // retry may lose the part already read)
+        for kind in 0..2u64 {
+            for cut in [1usize, 2] {
+                let p = payload(rng, 50);
+                let b = if kind == 0 { uni_wt(0, &p) } else { bi_wt(0, &p) };
+                let exp = if kind == 0 { (1, 0) } else { (0, 1) };
+                cs.push(Case::new(621, vec![vec![0, 1, 0, exp.0, exp.1], spec(kind, cut, 1500, 0, 0), b2a(&b)], "slow-preamble"));
+            }
+        }
         // several concurrent streams of both kinds, non-minimal session id encodings
         for nstreams in [4usize, 12] {
             let mut args = vec![vec![0, 2, 0, 0, 0]];
@@ -310,7 +401,7 @@ pub fn generate(rng: &mut Rng, thorough: bool, which: &str) -> Vec<Case> {
         for code in [0u64, 77, (1 << 62) - 1] {
             cs.push(Case::new(621, vec![vec![0, 1, 0, 1, 0], spec(0, 0, 0, 1, code), b2a(&uni_wt(0, b"partial"))], "peer-reset"));
         }
-        // GREASE frames before the WT signal on a bidi stream are skipped by the accept task
+        // GREASE frames before the WT signal on a bidi stream: the signal is then not the first frame, the endpoint answers H3_FRAME_ERROR (the model says so too)
         let mut b = raw_frame(0x21, &[1, 2]);
         b.extend(raw_frame(0x21 + 0x1f * 9, &[]));
         b.extend(bi_wt(0, b"after-grease"));
@@ -410,6 +501,29 @@ pub fn generate(rng: &mut Rng, thorough: bool, which: &str) -> Vec<Case> {
                 }
             }
         }
+        // accepted but unread: k streams each carrying 1.2 MB (just below the stream window) that the
+        // application never reads, then healthy streams of both kinds
+        for (kind, k) in [(0u64, 5usize), (1, 5), (0, 2)] {
+            let mut args = vec![vec![0, 1, 0, 0, 0]];
+            for _ in 0..k {
+                let b = if kind == 0 { uni_wt(0, b"NOREAD") } else { bi_wt(0, b"NOREAD") };
+                let mut sp = spec(kind, 0, 0, 2, 0);
+                sp.push(1_200_000);
+                args.push(sp);
+                args.push(b2a(&b));
+            }
+            let (mut eu, mut eb) = (0u64, 0u64);
+            if kind == 0 { eu += k as u64 } else { eb += k as u64 }
+            for hk in [0u64, 1] {
+                let b = if hk == 0 { uni_wt(0, b"healthy-uni-after-unread") } else { bi_wt(0, b"healthy-bi-after-unread") };
+                args.push(spec(hk, 0, 0, 0, 0));
+                args.push(b2a(&b));
+                if hk == 0 { eu += 1 } else { eb += 1 }
+            }
+            args[0][3] = eu;
+            args[0][4] = eb;
+            cs.push(Case::new(621, args, "unread-then-healthy"));
+        }
         return cs;
     }
     if which == "pace" {
@@ -432,6 +546,19 @@ pub fn generate(rng: &mut Rng, thorough: bool, which: &str) -> Vec<Case> {
                 args[0][4] = eb;
                 cs.push(Case::new(621, args, "many-streams"));
             }
+        }
+        // one-shot acceptors: as many concurrently pending accept calls as streams, all parked
+        // before the first stream exists; every call must get its stream
+        for k in [2usize, 4] {
+            let mut args = vec![vec![0, k as u64, 2, k as u64, k as u64]];
+            for i in 0..2 * k {
+                let kind = (i % 2) as u64;
+                let p = format!("one-shot-{:02}", i).into_bytes();
+                let b = if kind == 0 { uni_wt(0, &p) } else { bi_wt(0, &p) };
+                args.push(spec(kind, 0, 40, 0, 0));
+                args.push(b2a(&b));
+            }
+            cs.push(Case::new(621, args, "one-shot-acceptors"));
         }
         return cs;
     }
